@@ -11,6 +11,7 @@ if os.path.exists('/verif/seeded/RESULTS.txt'):
             if m:
                 res[m.group(1)] = m.groups()
 rows = []
+NOTES = {'C16': ' - the change is in the multiplexer, which the C16 harness replaces by a model; it is reported by the C11 check (`H_C11_cut`: deadlock), see round 1 above'}
 def key(d):
     b = os.path.basename(d.rstrip('/'))
     p, _, r = b.partition('-')
@@ -31,6 +32,7 @@ for d in sorted(glob.glob('/verif/seeded/C*/'), key=key):
         caught = ('exit=%s, %s violation key(s); first: `%s`' % (r[2], r[3], first)) if r[3] != '0' else 'NOT caught (exit=%s)' % r[2]
     else:
         caught = '(not swept yet)'
+    caught += NOTES.get(sid, '')
     rows.append('| %s | %s | %s |' % (sid, summ, caught))
 table = '| seed | change | quick check of its property |\n|---|---|---|\n' + '\n'.join(rows) + '\n'
 p = '/verif/DESIGN.md'
